@@ -87,7 +87,14 @@ Stall == { [ops |-> <<StallPing>> \o post, gate |-> "", delays |-> ""] :
                        <<Ping, Op("delete", "bad", FALSE, "none", "none"), Run>>,
                        <<Op("exec", "noent", FALSE, "ok", "none"), Ping, Ping>>,
                        <<Run, Op("symlink", "bad", FALSE, "none", "none"), Ping>> } }
-All == Singles \cup Pairs \cup Races \cup Rand \cup Loss \cup Stale \cup Carry \cup FailPairs \cup Stall
+\* (j) an operation that fails in more than one place at once (Reset with two tmpfs mounts it cannot empty):
+\* still exactly one answer
+ResetBusy == Op("reset", "busy", FALSE, "none", "none")
+Nested == { [ops |-> pre \o <<ResetBusy>> \o post, gate |-> "nested", delays |-> ""] :
+             pre \in { <<>>, <<Run>> },
+             post \in { <<Ping, Op("delete", "bad", FALSE, "none", "none"), Op("open", "ok", FALSE, "none", "none"), Ping>>,
+                        <<ResetBusy, Run, Ping>> } }
+All == Nested \cup Singles \cup Pairs \cup Races \cup Rand \cup Loss \cup Stale \cup Carry \cup FailPairs \cup Stall
 ASSUME ndJsonSerialize("histories.ndjson", SetToSeq(All))
 ASSUME PrintT(<<"histories", Cardinality(Singles), Cardinality(Pairs), Cardinality(Races), Cardinality(Rand), Cardinality(Loss)>>)
 VARIABLE x
